@@ -1125,7 +1125,8 @@ impl GlobalInferenceCtx<'_> {
                     let new_ty = match &self.bodies[expr] {
                         Expr::IntLiteral(num) => match *previous_ty {
                             Ty::IInt(0) if *num > i32::MAX as u64 => Ty::IInt(64).into(),
-                            Ty::UInt(0) if *num > u32::MAX as u64 => Ty::UInt(64).into(),
+                            // {uint} is compiled as an i32, so anything above i32::MAX must be widened
+                            Ty::UInt(0) if *num > i32::MAX as u64 => Ty::UInt(64).into(),
                             _ => continue,
                         },
                         Expr::Ref {
